@@ -33,19 +33,20 @@ import (
 
 // stimuli (besides the pool's RComplete=4, RAdvance=5, RCancel=2)
 const (
-	SAdd      = 31 // rid pod cid
-	SDel      = 32 // rid pod cid
-	SGet      = 33 // rid pod cid
-	SGC       = 34
-	SPodGone  = 35 // pod : deleted from the API server and the node
-	SPodExit  = 36 // pod : its sandbox exited (still in the API)
-	SAPIErr   = 37 // flag : PodExist fails
-	SCrash    = 38 // crash + start (a parked store operation is lost / kept according to where it parked)
-	SPark     = 39 // pos : the next store operation parks at 1 before put 2 after put 3 before delete 4 after delete
-	SFailRel  = 40 // pod flag : releasing this pod's allocation fails at the interface
-	SRecreate = 44 // pod : the pod object is replaced by a new instance of the same name (new uid)
-	SFailSt   = 46 // the disk transaction of the next store mutation fails before it has any effect (error to the caller)
-	SGCRace   = 45 // pod rid cid : a GC pass; right after the API has answered its question about this pod (parked on the way back)
+	SAdd       = 31 // rid pod cid
+	SDel       = 32 // rid pod cid
+	SGet       = 33 // rid pod cid
+	SGC        = 34
+	SPodGone   = 35 // pod : deleted from the API server and the node
+	SPodExit   = 36 // pod : its sandbox exited (still in the API)
+	SAPIErr    = 37 // flag : PodExist fails
+	SCrash     = 38 // crash + start (a parked store operation is lost / kept according to where it parked)
+	SPark      = 39 // pos : the next store operation parks at 1 before put 2 after put 3 before delete 4 after delete
+	SFailRel   = 40 // pod flag : releasing this pod's allocation fails at the interface
+	SRecreate  = 44 // pod : the pod object is replaced by a new instance of the same name (new uid)
+	SNoRestart = 47 // observation: the restart after a crash failed (the daemon cannot load what it stored)
+	SFailSt    = 46 // the disk transaction of the next store mutation fails before it has any effect (error to the caller)
+	SGCRace    = 45 // pod rid cid : a GC pass; right after the API has answered its question about this pod (parked on the way back)
 	//                          the pod is created again under its name and the ADD of the new sandbox arrives; then the answer is delivered
 	// observations
 	EReplyRPC = 41 // rid kind code eni a4 a6   (kind 1 add 2 del 3 get; code 0 ok 1 processing 2 error)
@@ -456,8 +457,9 @@ func eval(t *testing.T) func(in []*big.Int) ([]*big.Int, []*big.Int) {
 				if err := w.Start(nil); err != nil {
 					t.Fatalf("start: %v", err)
 				}
+				dead := false
 				for _, rec := range recs {
-					if len(rec) == 0 {
+					if len(rec) == 0 || dead {
 						continue
 					}
 					switch rec[0] {
@@ -599,7 +601,11 @@ func eval(t *testing.T) func(in []*big.Int) ([]*big.Int, []*big.Int) {
 					case SCrash:
 						w.Ev(SCrash)
 						if err := r.crash(); err != nil {
-							t.Fatalf("crash/restart: %v", err)
+							// the daemon cannot come up from the records it wrote itself: an observation, the history ends here
+							t.Logf("crash/restart: %v", err)
+							w.Ev(SNoRestart)
+							w.Quiesce()
+							dead = true
 						}
 					case pool.RCancel:
 						w.Ev(pool.RCancel, rec[1])
